@@ -142,6 +142,14 @@ def noDupGo : List GF → Bool
 /-- Two declaration sites of one name are never generated together. -/
 def noDuplicates : Bool := c17Groups.all (fun g => noDupGo (g.defs.map defSiteGuardRaw))
 
+/-- Go rejects a label that nothing jumps to: whenever a label is generated, a `goto` / `break` / `continue`
+naming it is generated in the same function. -/
+def labelsUsed : Bool :=
+  c17LabelNames.all (fun n =>
+    match c17Groups[n]? with
+    | some g => g.defs.all (fun d => checkImp axioms (defSiteGuardRaw d) (disj (g.uses.map useGuard)))
+    | none => false)
+
 /-- Counts for the driver: uses, consistent, known-inconsistent, not propositional, inconsistent. -/
 def counts : Nat × Nat × Nat × Nat × Nat :=
   c17Uses.foldl (fun (t, c, k, p, i) u =>
